@@ -32,7 +32,7 @@ func c10Doc() any { return c10DocP(true) }
 func c10DocP(pipe bool) any {
 	vrtSpec(1, 2, 1, "a,b,c", smASCII, nfInt, 0)
 	vrtNumRange(-3, 3)
-	vrtNested(1)
+	vrtNested(tq(1, 2))
 	// operands are scalars, small arrays or (to tell groupings around | apart)
 	// objects that again have members a, b, c
 	u, cu := uNil|uBool|uJNum, uNil|uBool|uJNum
